@@ -289,7 +289,8 @@ Definition handle (cfg : config) (c : controller) (m : method)
 Record observation := mkObs {
   ob_status : N;
   ob_auth : list (check * option N);            (* callback invocations: check, refusal status *)
-  ob_calls : list (str * str * list arg) }.     (* controller invocations with decoded arguments *)
+  ob_calls : list (str * str * list arg);       (* controller invocations with decoded arguments *)
+  ob_rejected : option str }.                   (* the parameter a 422 problem document names *)
 
 Definition value_opt_eqb (a b : option value) : bool :=
   match a, b with
@@ -332,16 +333,21 @@ Definition call_eqb (a b : str * str * list arg) : bool :=
 Definition predicted (out : list event * verdict) : option observation :=
   let auth := auth_records (fst out) in
   match snd out with
-  | Refused r => Some (mkObs (rf_status r) auth [])
-  | Rejected _ => Some (mkObs 422 auth [])
-  | Invoked cn mn args st => Some (mkObs st auth [(cn, mn, args)])
+  | Refused r => Some (mkObs (rf_status r) auth [] None)
+  | Rejected n => Some (mkObs 422 auth [] (Some n))
+  | Invoked cn mn args st => Some (mkObs st auth [(cn, mn, args)] None)
   | Unmodelled _ => None
   end.
 
 Definition obs_eqb (a b : observation) : bool :=
   N.eqb (ob_status a) (ob_status b) &&
   list_eqb authrec_eqb (ob_auth a) (ob_auth b) &&
-  list_eqb call_eqb (ob_calls a) (ob_calls b).
+  list_eqb call_eqb (ob_calls a) (ob_calls b) &&
+  match ob_rejected a, ob_rejected b with
+  | Some x, Some y => str_eqb x y
+  | None, None => true
+  | _, _ => false
+  end.
 
 (* a compiled router refines the model on a request: it shows what the model predicts *)
 Definition refines (out : list event * verdict) (o : observation) : bool :=
@@ -385,3 +391,18 @@ Definition judge_detail (p : project) (pkg cn mn : str) (tbl : list (rkey * refu
    | Some out => map (refines out) obs
    | None => []
    end).
+
+(* ---- the strconv call a generated handler makes, as a function (tie to the translation) ----
+   [go_strconv f bits raw]: the value the statement `x, err := strconv.<f>(raw, 10, <bits>)` followed by
+   the template's cast yields, None when err != nil; a parameter without conversion statement keeps
+   the raw text.  Bit size 0 means the platform's int/uint (64 bits). *)
+Definition bits_of (b : str) : N :=
+  match parse_N b with Some 0 => 64 | Some n => n | None => 64 end.
+
+Definition go_strconv (f bits raw : str) : option value :=
+  if is_nil f then Some (VStr raw)
+  else if str_eqb f (s "Atoi") then option_map VInt (parse_int 64 raw)
+  else if str_eqb f (s "ParseInt") then option_map VInt (parse_int (bits_of bits) raw)
+  else if str_eqb f (s "ParseUint") then option_map VUint (parse_uint (bits_of bits) raw)
+  else if str_eqb f (s "ParseBool") then option_map VBool (parse_bool raw)
+  else None.
